@@ -37,17 +37,31 @@ META = {
 }
 
 
+XTRA = 'XTRA'       # a traced variable of another dtype than the model's (a float series in an integer model)
+XTRA_VALUE = 0.6
+
+
+def add_xtra(m, case):
+    if case.get('xtra') and case.get('dtype') == 'int':
+        m.add_variable(XTRA, XTRA_VALUE, dtype=float)
+        return True
+    return False
+
+
 def trace_of(m, t):
     tr = m['trace'][t]
     if tr.is_empty():
         return '', [], tr
-    cols = tr.values.T
+    rows = [i for i, nm in enumerate(tr.names) if nm != XTRA]
+    cols = tr.values[rows, :].T
     s = ';'.join(f'{lab}:' + ','.join(str(bits(x)) for x in col) for lab, col in zip(tr.index, cols))
     return s, list(tr.index), tr
 
 
 def run_traced(case, trace_arg, repeat=1, entry='solve_t', reset=False):
     m = sc.build_instance(case, mixins=(TracerMixin,), exo=())
+    if add_xtra(m, case) and isinstance(trace_arg, list):
+        trace_arg = list(trace_arg) + [XTRA]
     kw = sc.opts_kwargs(case['opts'], case['tol'], case.get('argform', 'plain'))
     tags = []
     with warnings.catch_warnings():
@@ -69,6 +83,7 @@ def run_traced(case, trace_arg, repeat=1, entry='solve_t', reset=False):
 
 def run_untraced(case, repeat=1):
     m = sc.build_instance(case, exo=())
+    add_xtra(m, case)
     kw = sc.opts_kwargs(case['opts'], case['tol'], case.get('argform', 'plain'))
     tags = []
     with warnings.catch_warnings():
@@ -103,6 +118,13 @@ def oracle(case, trace_arg, names_idx, repeat, entry, rep, reset=False):
                     f'trace={trace_arg!r} entry={entry}: traced {tags_t} {state_str(mt, nE)} vs untraced {tags_u} {state_str(mu, nE)}',
                     {'case': case, 'trace': trace_arg, 'repeat': repeat, 'entry': entry, 'reset': reset})
     s, labels, tr = trace_of(mt, pos)
+    if labels and XTRA in list(tr.names):
+        row = list(tr.names).index(XTRA)
+        got = [float(x) for x in np.asarray(tr.values[row, :], dtype=float)]
+        if any(x != XTRA_VALUE for x in got):
+            rep.violate('trace-foreign-dtype', f'a float series ({XTRA_VALUE}) traced in an integer model is recorded as {sorted(set(got))}',
+                        {'case': case, 'trace': trace_arg, 'repeat': repeat, 'entry': entry, 'reset': reset})
+        rep.dist['trace:foreign-dtype-checked'] += 1
     for p in range(n):
         if p != pos and not mt['trace'][p].is_empty():
             rep.violate('trace-other-period', f'trace written for period {p} while solving {pos}',
@@ -126,7 +148,8 @@ def oracle(case, trace_arg, names_idx, repeat, entry, rep, reset=False):
             ok = ok and (rest == (['end'] if solved else []))
             if solved:
                 ok = ok and len(ints) == int(mt.iterations[pos]) + 1
-            cols = {lab: col for lab, col in zip(tr.index, tr.values.T)}
+            keep = [i for i, nm in enumerate(tr.names) if nm != XTRA]
+            cols = {lab: col for lab, col in zip(tr.index, tr.values[keep, :].T)}
             for (pp, k, cvv, allv) in passes:
                 if k in cols and [bits(x) for x in cols[k]] != [bits(allv[i]) for i in names_idx]:
                     # a raising pass records its state but takes no snapshot; a later snapshot with the same label cannot exist
@@ -171,8 +194,12 @@ def _work(ctx, rep):
     cases += core[: (2500 if ctx.tier == 'quick' else 7290)][ctx.part::ctx.parts]
     cases += [random_case(rng) for _ in range((2500 if ctx.tier == 'quick' else 400000) * ctx.scale // ctx.parts)]
     from props.c02 import dtype_case, scale_case
-    cases += [dtype_case(rng) for _ in range((600 if ctx.tier == 'quick' else 60000) * ctx.scale // ctx.parts)]
+    dcs = [dtype_case(rng) for _ in range((600 if ctx.tier == 'quick' else 60000) * ctx.scale // ctx.parts)]
+    for c in dcs:
+        c['xtra'] = rng.random() < 0.5
+    cases += dcs
     cases += [scale_case(rng, False) for _ in range((4 if ctx.tier == 'quick' else 60) * ctx.scale // ctx.parts)]
+    cases += [scale_case(rng, True) for _ in range((2 if ctx.tier == 'quick' else 24) * ctx.scale // ctx.parts)]   # traces > 512 snapshots
     lines, expect = [], []
     for case in cases:
         if case['opts']['min_iter'] > case['opts']['max_iter'] and rng.random() < 0.8:
